@@ -56,7 +56,19 @@ impl Value {
 		match self {
 			Self::Null => serde_json::Value::Null,
 			Self::Boolean(b) => serde_json::Value::Bool(b),
-			Self::Number(n) => serde_json::Value::Number(n.into()),
+			Self::Number(n) => {
+				if let Some(u) = n.as_u64() {
+					serde_json::Value::Number(u.into())
+				} else if let Some(i) = n.as_i64() {
+					serde_json::Value::Number(i.into())
+				} else {
+					// Every JSON number is valid Rust float syntax, and `str::parse` is
+					// correctly rounded. A magnitude beyond the doubles becomes `Null`,
+					// as `serde_json::Value::from(f64)` does for any non-finite float.
+					let f: f64 = n.as_str().parse().unwrap();
+					serde_json::Value::from(f)
+				}
+			}
 			Self::String(s) => serde_json::Value::String(s.into_string()),
 			Self::Array(a) => {
 				serde_json::Value::Array(a.into_iter().map(Value::into_serde_json).collect())
